@@ -85,7 +85,8 @@ pub fn build() -> Vec<TypeOps> {
 
 	// --- arrays
 	t!(v, "prim-arr"; [u8; 0], [u8; 1], [u8; 3], [u8; 32], [u8; 33], [u16; 3], [u32; 32], [u64; 33], [i128; 3], [i8; 7], [i16; 2], [i32; 5], [i64; 1]);
-	t!(v, "prim-arr"; [f32; 3], [f64; 1], [u8; 1000], [u16; 20000]);
+	t!(v, "prim-arr"; [f32; 3], [f64; 1]);
+	t!(v, "prim-arr", "huge"; [u8; 1000], [u16; 20000]);
 	t!(v; [bool; 2], [(u8, u16); 3], [(); 3], [[u8; 4]; 4], [NonZeroU8; 4]);
 	t!(v; [Option<u8>; 3], [Box<u8>; 3], [Arc<u16>; 3], [Compact<u32>; 2]);
 	t!(v; [String; 3], [Vec<u8>; 2], [Twin<u32>; 8], [Twin<u8>; 33], [Rc<u64>; 2], [Option<Box<String>>; 2]);
@@ -102,11 +103,15 @@ pub fn build() -> Vec<TypeOps> {
 	// --- pointers
 	t!(v, "ptr"; Box<u8>, Box<u32>, Box<[u8; 32]>, Box<[u32; 3]>, Box<(u8, u16)>, Box<()>, Box<Box<u8>>, Box<Box<Box<u16>>>);
 	t!(v, "ptr"; Arc<u32>, Arc<[u64; 4]>, Box<Option<Box<u8>>>, Arc<Box<u8>>);
-	t!(v, "ptr"; Box<String>, Box<Vec<u8>>, Rc<u32>, Rc<String>, Rc<[u8; 3]>, Arc<Vec<u16>>, Box<[String; 2]>, Rc<Rc<u8>>, Box<Vec<Rc<Vec<Arc<u32>>>>>, Rc<()>, Arc<()>, Box<[u16; 20000]>);
+	t!(v, "ptr"; Box<String>, Box<Vec<u8>>, Rc<u32>, Rc<String>, Rc<[u8; 3]>, Arc<Vec<u16>>, Box<[String; 2]>, Rc<Rc<u8>>, Box<Vec<Rc<Vec<Arc<u32>>>>>, Rc<()>, Arc<()>);
+	t!(v, "ptr", "huge"; Box<[u16; 20000]>);
 
 	// --- bit sequences
-	t!(v, "bits"; BitVec<u8, Lsb0>, BitVec<u8, Msb0>, BitVec<u16, Lsb0>, BitVec<u16, Msb0>, BitVec<u32, Lsb0>, BitVec<u32, Msb0>, BitVec<u64, Lsb0>, BitVec<u64, Msb0>);
-	t!(v, "bits"; BitBox<u8, Lsb0>, BitBox<u8, Msb0>, BitBox<u16, Lsb0>, BitBox<u16, Msb0>, BitBox<u32, Lsb0>, BitBox<u32, Msb0>, BitBox<u64, Lsb0>, BitBox<u64, Msb0>);
+	t!(v, "bits"; BitVec<u8, Lsb0>, BitVec<u8, Msb0>, BitVec<u16, Lsb0>, BitVec<u16, Msb0>, BitVec<u32, Lsb0>, BitVec<u32, Msb0>);
+	// 64-bit store words exist on 64-bit targets only
+	#[cfg(target_pointer_width = "64")]
+	t!(v, "bits"; BitVec<u64, Lsb0>, BitVec<u64, Msb0>, BitBox<u64, Lsb0>, BitBox<u64, Msb0>);
+	t!(v, "bits"; BitBox<u8, Lsb0>, BitBox<u8, Msb0>, BitBox<u16, Lsb0>, BitBox<u16, Msb0>, BitBox<u32, Lsb0>, BitBox<u32, Msb0>);
 	t!(v, "bits"; Vec<BitVec<u8, Lsb0>>, (BitVec<u16, Msb0>, u8), Option<BitBox<u32, Lsb0>>);
 
 	// --- bytes
@@ -132,7 +137,8 @@ pub fn build() -> Vec<TypeOps> {
 
 	// --- element sizes that do not divide the 16 KiB preallocation window; big elements (few per chunk)
 	t!(v, "odd-elem"; Vec<[u8; 3]>, Vec<(u8, u8, u8)>, VecDeque<[u8; 3]>, Vec<[u16; 3]>, Vec<(u8, u32)>, Vec<[u8; 5]>, BinaryHeap<[u8; 3]>, Cow<'static, [[u8; 3]]>);
-	t!(v, "big-elem"; Vec<[u8; 1000]>, Vec<[u64; 300]>, VecDeque<[u8; 1000]>, Vec<([u8; 1000], Vec<u8>)>);
+	t!(v, "big-elem", "huge"; Vec<[u8; 1000]>, Vec<[u64; 300]>, VecDeque<[u8; 1000]>, Vec<([u8; 1000], Vec<u8>)>);
+	t!(v, "wide-elem"; Vec<(u64, u64, u64)>, Vec<[u128; 2]>, Vec<T10>, VecDeque<[u32; 8]>, Vec<(Duration, u64)>, LinkedList<[u64; 4]>, BTreeMap<u64, [u8; 32]>);
 	t!(v, "heap"; BinaryHeap<Vec<Box<u32>>>, Vec<BinaryHeap<Box<u16>>>, BinaryHeap<Option<u8>>, BinaryHeap<Box<u8>>);
 
 	// --- types that newly gaining a length declaration would be wrong for (probed at compile time)
